@@ -144,6 +144,7 @@ impl<T: ?Sized + Trace> Cc<T> {
     pub fn finalize_again(&mut self) {
         // The is_finalizing and is_dropping checks are necessary to avoid letting this function
         // be called from Cc::drop implementation, since it doesn't set is_collecting to true
+        #[cfg(kani)] if state(|state| state.is_collecting() || state.is_finalizing() || state.is_dropping()) && crate::verif::limit_panic() { return; } // verification hook (H5): emulated unwinding out of the crate's own panic below, /verif/DESIGN.md 10.7
         assert!(
             state(|state| !state.is_collecting() && !state.is_finalizing() && !state.is_dropping()),
             "Cc::finalize_again cannot be called while collecting"
